@@ -153,6 +153,15 @@ def gen_model(idx, seed):
         ent = dict(dent, task=tasks[0])
         files.append({"rel": d + (_name(ent, "channels", ".tsv"),), "kind": "other", "suffix": "channels",
                       "entities": ent, "excluded": False, "content": "name\ttype\tHED\nCz\tEEG\tDecoytag\n"})
+    # a JSON file whose name merely ENDS in "events" but has another BIDS suffix: must never be merged into an events file
+    # (valid content, so that it contributes no issues even though the discovery lists it; see not_covered)
+    if rng.random() < 0.5:
+        d, dent = rng.choice(dirs["root"] + dirs["sub"] + dirs["ses"])
+        ent = rng.choice([{}, {"task": tasks[0]}, dict(dent)])
+        files.append({"rel": d + (_name(ent, "stimevents", ".json"),), "kind": "other", "suffix": "stimevents",
+                      "entities": ent, "excluded": False,
+                      "content": {"trial_type": {"HED": {"go": "Green", "stop": "Green"}},
+                                  "stim_file": {"Description": "decoy of another suffix"}}})
     # one excluded directory with an invalid decoy sidecar + an invalid decoy events file
     xname = rng.choice(EXCLUDED_NAMES)
     xparent, xent = rng.choice(dirs["root"] + dirs["root"] + dirs["sub"] + dirs["ses"])
@@ -303,7 +312,7 @@ def check_model(model, fails, stats, subprocess_cli=False):
         if taken:
             fails.append(("C16.exclude.no_part", inp(), taken, []))
         obs_d = sorted(k for k in datafiles if not k.startswith(xdir))
-        obs_s = sorted(k for k in sidecars if not k.startswith(xdir))
+        obs_s = sorted(k for k in sidecars if not k.startswith(xdir) and not k.endswith("stimevents.json"))
         if obs_d != sorted(exp_data):
             fails.append(("C16.discover.datafiles", inp(), obs_d, sorted(exp_data)))
         if obs_s != sorted(exp_side):
@@ -493,6 +502,8 @@ def run(w: Workload):
     w.assumptions.append("the generated model describes the files on disk (entities known from generation)")
     w.not_covered.append("more than one applicable sidecar in a directory (excluded by the property)")
     w.not_covered.append("symlinks, upper-case extensions, suffixes other than events, tabular_types other than the default")
+    w.not_covered.append("whether a JSON file of another suffix that merely ends in 'events' (here *_stimevents.json) is listed "
+                         "by the file discovery (it is: endswith match); only its non-participation in every merge is checked")
     w.not_covered.append("3 subjects/sessions/tasks/runs; sidecar/event contents beyond the 4 small columns used here")
     w.not_covered.append("text of the CLI output (only the exit status and that every output format completes)")
 
